@@ -24,7 +24,7 @@ RULE = ("Clusters(n_clusters 2-4, KMeans|MiniBatchKMeans) over EpsilonGreedy(0)/
         "(tree_parameters {}, max_depth 1-3, min_samples_leaf 2-4) over EpsilonGreedy(0)/UCB1/Thompson; histories fit + "
         "partial_fit + add/remove arm, queried after every training call; non-trivial = queries of one batch fall into >=2 "
         "different cells, or an arm added after fit has rows; distinct = (policy, lp, params, history skeleton, #cells seen)")
-BUDGET = {"quick": {"cases": 224, "shards": 8}, "thorough": {"cases": 8000, "shards": 16, "wall_s": 2400}}
+BUDGET = {"quick": {"cases": 448, "shards": 16}, "thorough": {"cases": 8000, "shards": 16, "wall_s": 3600}}
 MIN = {"quick": {"evaluations": 1200, "nontrivial": 80}, "thorough": {"evaluations": 40000, "nontrivial": 3000}}
 ASSUMPTIONS = ["the fitted scikit-learn objects (kmeans labels_/predict, tree.apply) are trusted as the definition of a cell",
                "Thompson leaves: distribution parameters checked by a 6-sigma moment test over 400 repeated queries (no sampler replay)",
